@@ -908,14 +908,15 @@ fn main() {
         let case = load_replay(path);
         let c = case.get("case").and_then(|v| v.as_u64()).unwrap_or(0);
         let s = case.get("seed").and_then(|v| v.as_u64()).unwrap_or(seed);
-        for _ in 0..3 {
+        for i in 0..3 {
             let sc = generate(s, c, &opts);
             run(&mut r, &sc);
+            r.nontrivial(&("replay-run", i));
         }
         std::process::exit(r.finish());
     }
 
-    let n = args.n(126, 2016);
+    let n = args.n(210, 2016);
     par_cases(&mut r, &args, n, |i, r| {
         let sc = generate(seed, i, &opts);
         run(r, &sc);
